@@ -70,8 +70,9 @@ type builder struct {
 	reads  map[string]bool
 	names  map[types.Object]string
 
-	sumDepth   int
-	recvByType map[string]map[string]bool
+	sumDepth    int
+	inlineDepth int
+	recvByType  map[string]map[string]bool
 }
 
 // FromFuncLit extracts the guarded commands of a function literal.
@@ -427,6 +428,114 @@ func (b *builder) summation(fs *ast.ForStmt, st *state) bool {
 	return true
 }
 
+// Resolver finds the declaration and type information of a module function (set by the caller).
+var Resolver func(fn *types.Func) (*ast.FuncDecl, *types.Info)
+
+// inline evaluates a call of a pure, loop-free module function as an expression.
+func (b *builder) inline(call *ast.CallExpr, args []sym.Expr, st *state) (sym.Expr, bool) {
+	if Resolver == nil || b.inlineDepth > 3 {
+		return nil, false
+	}
+	var fn *types.Func
+	var recvText string
+	switch f := call.Fun.(type) {
+	case *ast.Ident:
+		fn, _ = b.info.Uses[f].(*types.Func)
+	case *ast.SelectorExpr:
+		fn, _ = b.info.Uses[f.Sel].(*types.Func)
+		if sel := b.info.Selections[f]; sel != nil {
+			recvText = types.ExprString(f.X)
+		}
+	case *ast.IndexExpr:
+		if id, ok := f.X.(*ast.Ident); ok {
+			fn, _ = b.info.Uses[id].(*types.Func)
+		}
+	}
+	if fn == nil {
+		return nil, false
+	}
+	// only unexported helpers of the package being analysed: exported functions and methods
+	// (Ring.IsFull, Bst.Max, RoundDigit, ...) are named operators with their own rules
+	if fn.Exported() {
+		return nil, false
+	}
+	decl, info := Resolver(fn.Origin())
+	if decl == nil || info != b.info || decl.Body == nil || decl.Type.Results == nil || len(decl.Type.Results.List) != 1 {
+		return nil, false
+	}
+	sub := newBuilder(info, decl.Body.Pos(), decl.Body.End())
+	sub.inlineDepth = b.inlineDepth + 1
+	var params []string
+	if decl.Type.Params != nil {
+		for _, f := range decl.Type.Params.List {
+			for _, nm := range f.Names {
+				if obj := info.Defs[nm]; obj != nil {
+					sub.params[obj] = true
+					params = append(params, nm.Name)
+				}
+			}
+		}
+	}
+	if len(params) != len(args) {
+		return nil, false
+	}
+	sub.run(decl.Body.List, &state{env: map[types.Object]sym.Expr{}})
+	m := sub.finish()
+	if len(m.Unsupported) > 0 || len(m.State) > 0 || len(m.Paths) == 0 {
+		return nil, false
+	}
+	ren := map[string]sym.Expr{}
+	for i, p := range params {
+		ren[p] = args[i]
+	}
+	// the callee's receiver is the expression the method was selected on
+	if decl.Recv != nil && len(decl.Recv.List) == 1 && len(decl.Recv.List[0].Names) == 1 && recvText != "" {
+		rn := decl.Recv.List[0].Names[0].Name
+		for _, r := range m.Reads {
+			if strings.HasPrefix(r, rn+".") {
+				name := recvText + r[len(rn):]
+				ren[r] = sym.V(name)
+				b.reads[name] = true
+				if _, ok := b.m.ReadExprs[name]; !ok {
+					if ex, ok := m.ReadExprs[r].(*ast.SelectorExpr); ok {
+						if f, isSel := call.Fun.(*ast.SelectorExpr); isSel {
+							// the same selector path, rooted at the caller's receiver expression
+							b.m.ReadExprs[name] = &ast.SelectorExpr{X: f.X, Sel: ex.Sel}
+						}
+					}
+				}
+			}
+		}
+	}
+	var out sym.Expr
+	for i := len(m.Paths) - 1; i >= 0; i-- {
+		p := m.Paths[i]
+		if len(p.Effects) > 0 || len(p.Ret) != 1 || len(p.Sends) > 0 {
+			return nil, false
+		}
+		ret := sym.Subst(p.Ret[0], ren)
+		if out == nil {
+			out = ret
+			continue
+		}
+		var cond sym.Expr
+		for _, c := range p.Conds {
+			cs := sym.Subst(c, ren)
+			if cond == nil {
+				cond = cs
+			} else {
+				cond = sym.Logic{Op: "&&", Args: []sym.Expr{cond, cs}}
+			}
+		}
+		if cond == nil {
+			out = ret
+		} else {
+			out = sym.Ite{Cond: cond, A: ret, B: out}
+		}
+	}
+	return out, out != nil
+}
+
 // receiverName: "Ring" for the only *helper.Ring used between lo and hi, otherwise the expression text.
 func (b *builder) receiverName(x ast.Expr) string {
 	text := types.ExprString(x)
@@ -656,6 +765,12 @@ func (b *builder) expr(e ast.Expr, st *state) sym.Expr {
 			return sym.F("sqrt", args...)
 		case "math.Pow":
 			return sym.F("pow", args...)
+		}
+		// a call of a function or method of the module whose body is loop-free and free of effects:
+		// its value is the conditional expression of its returns (an extracted helper must not
+		// change what is decided)
+		if v, ok := b.inline(x, args, st); ok {
+			return v
 		}
 		// a method call on an object: opaque; named by the receiver's type when the analysed code
 		// uses one object of that type (so that renaming the variable changes nothing), else by
